@@ -9,8 +9,10 @@ value may be one of the network's own containers (id() walk + in-place mutation 
 table; the model's observers are tied to the real views through the C08 driver.
 """
 import collections.abc
+import contextlib
 import copy
 import inspect
+import io
 import itertools
 import json
 import os
@@ -29,13 +31,15 @@ from ..fn import conclude
 NET_CLASSES = ("Hypergraph", "DiHypergraph", "SimplicialComplex")
 CHEAP_STATS = ("degree", "order", "attrs")
 LIGHT_STAT_METHODS = ("asdict", "asnumpy", "aslist")
+ALIAS_CLASS = {"node-attrs": "alias-attrs", "edge-attrs": "alias-attrs", "private-state": "alias-net-attrs"}
 
 
 # ----------------------------------------------------------------------------- targets
 
 class Target:
-    def __init__(self, site, kind, params, domain=None, force=None, where=None, bind=None, extra=None, heavy=False):
+    def __init__(self, site, kind, params, domain=None, force=None, where=None, bind=None, extra=None, heavy=False, vsite=None):
         self.site, self.kind, self.params, self.domain = site, kind, params, domain
+        self.vsite = vsite or site   # site a violation is attributed to: the function that defines the behaviour
         self.force = force or {}
         self.where = where          # net -> object to call on (or None when not admissible)
         self.bind = bind            # (obj) -> callable
@@ -62,9 +66,28 @@ def stat_names(view):
     return sorted(n for n in names if not n.startswith("_") and inspect.isfunction(getattr(m, n, None)))
 
 
+def defining_site(cls, meth, fn):
+    """views share their methods through IDView, and the Mapping mix-ins (get / items / values) are defined by the abc in
+    terms of __getitem__: attribute a finding to the function that defines the behaviour"""
+    if fn is not None and str(getattr(fn, "__module__", "")).startswith("xgi"):
+        return fn.__qualname__
+    if cls.endswith("View") and meth in ("get", "items", "values"):
+        return "IDView.__getitem__"
+    return f"{cls}.{meth}"
+
+
+def concrete_view_classes():
+    out = set()
+    for c in NET_CLASSES:
+        n = getattr(xgi, c)()
+        out |= {type(n.nodes).__name__, type(n.edges).__name__}
+    return out
+
+
 def build_targets(entries):
     """-> (targets, skipped declared mutators)"""
     targets, skipped = [], []
+    concrete = concrete_view_classes()
     for e in entries:
         name, kind, fn = e["name"], e["kind"], e["fn"]
         hip, doc_mut = e["hip"], e["doc_mut"]
@@ -81,19 +104,22 @@ def build_targets(entries):
         cls, meth = name.split(".", 1)
         if cls in NET_CLASSES:
             where = (lambda c: (lambda net: net if type(net).__name__ == c else None))(cls)
-        elif cls.endswith("View"):
+        elif cls.endswith("View") and cls in concrete:
             where = (lambda c: (lambda net: net.nodes if type(net.nodes).__name__ == c else (net.edges if type(net.edges).__name__ == c else None)))(cls)
         else:
             continue                                   # stat classes are expanded per network below (need a stat name)
         dom = "edge" if "Edge" in cls else ("node" if "Node" in cls else None)
         if kind == "property":
-            targets.append(Target(name, kind, [], dom, {}, where, bind=(lambda m: (lambda obj: (lambda: getattr(obj, m))))(meth)))
+            targets.append(Target(name, kind, [], dom, {}, where, bind=(lambda m: (lambda obj: (lambda: getattr(obj, m))))(meth),
+                                  vsite=defining_site(cls, meth, fn)))
         elif kind == "classmethod":
             targets.append(Target(name, kind, [p for p in _params(fn, 1)], dom, {}, where,
-                                  bind=(lambda m: (lambda obj: getattr(type(obj), m)))(meth), extra={"selfview": True}))
+                                  bind=(lambda m: (lambda obj: getattr(type(obj), m)))(meth), extra={"selfview": True},
+                                  vsite=defining_site(cls, meth, fn)))
         else:
             ps = [p for p in _params(fn, 1) if p.name != "in_place"] if fn is not None else None
-            targets.append(Target(name, kind, ps, dom, force, where, bind=(lambda m: (lambda obj: getattr(obj, m)))(meth)))
+            targets.append(Target(name, kind, ps, dom, force, where, bind=(lambda m: (lambda obj: getattr(obj, m)))(meth),
+                                  vsite=defining_site(cls, meth, fn)))
     return targets, skipped
 
 
@@ -123,11 +149,12 @@ def stat_targets(entries, thorough):
                 f = getattr(m, sname)
                 ps = _params(f, 2)
                 # accessor without and with arguments
+                root = f"xgi.stats.{modname}.{sname}"       # stat objects only re-present what the stat function computed
                 out.append(Target(f"{vcls}.{sname}", "stat-accessor", [], dom, {}, sel,
-                                  bind=(lambda s: (lambda v: (lambda: getattr(v, s))))(sname)))
+                                  bind=(lambda s: (lambda v: (lambda: getattr(v, s))))(sname), vsite=root))
                 if ps:
                     out.append(Target(f"{vcls}.{sname}(…)", "stat-accessor", ps, dom, {}, sel,
-                                      bind=(lambda s: (lambda v: (lambda *a, **k: getattr(v, s)(*a, **k).asdict())))(sname)))
+                                      bind=(lambda s: (lambda v: (lambda *a, **k: getattr(v, s)(*a, **k).asdict())))(sname), vsite=root))
                 methods = by_cls.get(scls, [])
                 for meth, kind, fn in methods:
                     if meth.startswith("__") and meth not in ("__getitem__", "__iter__", "__len__", "__call__"):
@@ -142,7 +169,7 @@ def stat_targets(entries, thorough):
                         ps2 = _params(fn, 1) if fn is not None else None
                     if meth == "__call__":
                         ps2 = []
-                    out.append(Target(f"{scls}.{meth}", "stat-method", ps2, dom, {}, sel, bind=b, extra={"stat": sname}))
+                    out.append(Target(f"{scls}.{meth}", "stat-method", ps2, dom, {}, sel, bind=b, extra={"stat": sname}, vsite=root))
             # multi-stats
             mcls = "Multi" + scls
             two = [n for n in ("degree", "order", "size", "in_degree", "head_order", "clustering_coefficient") if n in names][:2]
@@ -222,6 +249,13 @@ def plan_calls(t, net, obj, rng, max_variants, env):
             kw = dict(t.force)
             kw[p.name] = v
             calls.append((first, kw))
+    allfirst = dict(t.force)
+    for p in opt:
+        c = cands(p)
+        if c:
+            allfirst[p.name] = c[0]
+    if len(allfirst) - len(t.force) >= 2:              # every generated optional parameter at once (needed when defaults are unusable)
+        calls.append((first, allfirst))
     if max_variants > 2 and len(opt) > 1:              # thorough: a few random combinations of optional parameters
         for _ in range(3):
             kw = dict(t.force)
@@ -255,7 +289,7 @@ def check_call(ctx, t, subj, args, kwargs, env, record=True):
         f = t.bind(obj)
         a = [obj if x == "$self" else L.resolve(x, net, env) for x in args]
         kw = {k: L.resolve(v, net, env) for k, v in kwargs.items()}
-        with warnings.catch_warnings():
+        with warnings.catch_warnings(), contextlib.redirect_stdout(io.StringIO()):
             warnings.simplefilter("ignore")
             ret = drain(L.with_timeout(lambda: f(*a, **kw)))
     except L.CallTimeout as ex:
@@ -289,7 +323,7 @@ def check_call(ctx, t, subj, args, kwargs, env, record=True):
         d2 = L.diff(subj.before, after2)
         if d2:
             for cls, detail in d2:
-                viol.append(("alias-" + cls, f"{t.site}(args={args}, kwargs={kwargs}) on {subj.spec['label']}: mutating the returned "
+                viol.append((ALIAS_CLASS.get(cls, "alias-" + cls), f"{t.site}(args={args}, kwargs={kwargs}) on {subj.spec['label']}: mutating the returned "
                                               f"object in place changed the argument ({detail}); shared: {shared[:3]}"))
             subj.rebuild()
         elif shared:
@@ -299,7 +333,7 @@ def check_call(ctx, t, subj, args, kwargs, env, record=True):
     if record:
         ctx.evaluations += 1
         for cls, detail in viol:
-            ctx.violation(t.site, cls, case, detail=detail)
+            ctx.violation(t.vsite, cls, case, detail=detail)
     return exc is None, exc, viol
 
 
@@ -420,7 +454,7 @@ def next_auto(H):
     before = set(C.edges)
     C.add_edge([L.PROBE])
     new = [e for e in C.edges if e not in before]
-    return enc_id(new[0])
+    return [enc_id(x) for x in new]
 
 
 def in_model_domain(sp):
